@@ -771,11 +771,45 @@ impl Block for CancelInside {
 
 const FAIL_MSG: &str = "verif-injected-failure-7f3a";
 
+/// A block without streams that fails on its k-th call. Graphs made only of
+/// these have no block that ends cleanly.
+struct FailSource {
+    k: u64,
+    calls: u64,
+}
+impl rustradio::block::BlockName for FailSource {
+    fn block_name(&self) -> &str {
+        "FailSource"
+    }
+}
+impl rustradio::block::BlockEOF for FailSource {
+    fn eof(&mut self) -> bool {
+        false
+    }
+}
+impl Block for FailSource {
+    fn work(&mut self) -> rustradio::Result<BlockRet> {
+        self.calls += 1;
+        if self.calls >= self.k {
+            return Err(rustradio::Error::msg(FAIL_MSG));
+        }
+        Ok(BlockRet::Again)
+    }
+}
+
 fn c07_build(c: &C07Case) -> BuiltGraph {
     let mut rng = Rng::new(c.seed);
     let stream_bytes = *rng.pick(&[4096usize, 4096, 16384, 0]);
     rec::stream_size(stream_bytes);
     let mut blocks: Vec<(Box<dyn Block + Send>, Arc<ProbeStats>)> = Vec::new();
+    if c.kind == "fail-alone" {
+        // one to three blocks, every one of them failing: nobody ends cleanly
+        for _ in 0..1 + c.chain % 3 {
+            blocks.push(Probe::wrap(Box::new(FailSource { k: c.k, calls: 0 })));
+        }
+        rec::stream_size(0);
+        return BuiltGraph { blocks, sink: SinkHandle::U8(Arc::new(Mutex::new(Vec::new()))), keep: Vec::new() };
+    }
     // Every repetition of a VectorSource carries marker tags, and the derive
     // macro's sync blocks filter the whole tag list once per sample: a backlog
     // of a full default-size (4 MB) stream of tiny repetitions makes one
@@ -878,7 +912,10 @@ fn c07_case(c: &C07Case, rep: &mut Report) -> Vec<(String, String)> {
         return out;
     }
     let cancelled = CANCELLED.load(Ordering::SeqCst);
-    if c.kind == "fail" || c.kind == "fail-then-cancel" {
+    if c.kind == "fail" || c.kind == "fail-then-cancel" || c.kind == "fail-alone" {
+        if c.kind == "fail-alone" {
+            rep.count("runs_in_which_every_block_failed", 1);
+        }
         if o.stats.iter().all(|s| s.errors.load(Ordering::SeqCst) == 0) {
             // the finite graph finished before the k-th call: no failure was injected
             rep.count("failure_not_reached", 1);
@@ -983,7 +1020,7 @@ pub fn main(opts: &Opts, prop: &str) -> Report {
     rep.rule = match prop {
         "C05" => "generated graph programs (chains, tee/merge diamonds, merges with a second source of another length, rate changers, packet stages; CollectSink or a VectorSink watched by a second thread; finite VectorSource of 0..5 capacities; streams of 1,2,4,16 pages or default) run on MTGraph in seeded add orders with seeded PCT-style delays at yield hooks (incl. >100 ms sleeps so wait time-outs fire); termination decided by a logical stuck rule, sink compared with the harness's own sequential reference executor; distinct = (program, interleaving signature of the global produce/consume order)".into(),
         "C06" => "same generator on the single-threaded Graph (a quarter of the programs end in the library's VectorSink while a second thread keeps taking its Hook::data() guard for 20-400 us at a time); add orders forward, reverse and random; after run() returns Ok every block is called again through a hook accessor and no data may move (quiescence probe), then the sink is compared with the reference; early returns are classified by whether the deciding pass contained a data-moving call with a non-Again verdict; distinct = (program, add order)".into(),
-        _ => "chains of 1-5 blocks behind finite and infinite sources on both runners; cancellation before run() is entered, from an outside thread after a seeded delay, from the hook callback at the k-th yield event of whichever thread gets there, and from inside a block's work(); a third of the cancellation cases have a Tee whose second output is held, unread, by the harness (an application-side stream end the graph backs up on); a failing block at every position failing on call k in {1,2,5,50}; distinct = (kind, runner, cancellation site or failure position, k)".into(),
+        _ => "chains of 1-5 blocks behind finite and infinite sources on both runners; cancellation before run() is entered, from an outside thread after a seeded delay, from the hook callback at the k-th yield event of whichever thread gets there, and from inside a block's work(); a third of the cancellation cases have a Tee whose second output is held, unread, by the harness (an application-side stream end the graph backs up on); a failing block at every position failing on call k in {1,2,5,50}, and graphs of one to three blocks that all fail (no block ends cleanly); distinct = (kind, runner, cancellation site or failure position, k)".into(),
     };
     rep.assume("blocks in generated graphs are deterministic functions of stream state and peer liveness; stuck = no data event and no block exit while every live block was called N more times");
     crate::rec::install(true);
@@ -1060,14 +1097,14 @@ pub fn main(opts: &Opts, prop: &str) -> Report {
         _ => {
             let runs = opts.budget(16 * 60, 16 * 3000);
             for k in 0..runs {
-                let kind = ["cancel-outside", "cancel-at-yield", "cancel-inside", "fail", "fail-then-cancel", "cancel-before-run"][(k % 6) as usize];
+                let kind = ["cancel-outside", "cancel-at-yield", "cancel-inside", "fail", "fail-then-cancel", "cancel-before-run", "fail-alone"][(k % 7) as usize];
                 let chain = rng.range(1, 5);
                 let c = C07Case {
                     kind: kind.to_string(),
                     mt: rng.chance(1, 2) || kind == "fail-then-cancel",
                     seed: rng.next(),
                     k: match kind {
-                        "fail" | "fail-then-cancel" => *rng.pick(&[1u64, 2, 5, 50]),
+                        "fail" | "fail-then-cancel" | "fail-alone" => *rng.pick(&[1u64, 2, 5, 50]),
                         "cancel-inside" => rng.range(1, 30) as u64,
                         "cancel-at-yield" => rng.range(0, 4000) as u64,
                         _ => rng.range(0, 30_000) as u64,
